@@ -68,7 +68,8 @@ func checkC18(c *Ctx) {
 		return
 	}
 	checkDirtyGate(c, p, dc, "C18-R3", isSimEmission, 2)
-	checkEncodeDst(c, p, dc, "C18-R4")
+	encHost := transformHost(p, dc) // drawCell, or the helper it encodes the runes with
+	checkEncodeDst(c, p, encHost, "C18-R4")
 	checkHideCursor(c, p, "C18-R5", "simscreen")
 	checkFallbackOwnership(c, p, "C18-R7", "simscreen")
 	checkCursorEpilogue(c, p, "C18-R7", "simscreen")
@@ -77,9 +78,9 @@ func checkC18(c *Ctx) {
 	} else {
 		c.Undecided("C18-R6", "InjectKeyBytes", "-", "not found")
 	}
-	sa := encPredAtoms(dc)
-	c.Check(sa["T#0 == 0"] && sa["out[0] == 26"], "C18-R4", "(*simscreen).drawCell:failure-predicate", p.pos(dc.Pos()),
-		fmt.Sprintf("conditions on the encoder's results: %v (the terminfo screen falls back on zero length and on a SUB first byte; so must its test double)", sortedKeys(sa)))
+	sa, foundAppend := encodedAppendAtoms(encHost)
+	c.Check(foundAppend && sa["T#0 != 0"] && sa["out[0] != 26"], "C18-R4", "(*simscreen).drawCell:failure-predicate", p.pos(dc.Pos()),
+		fmt.Sprintf("the encoded bytes are kept under %v (the terminfo screen falls back on zero length and on a SUB first byte; so must its test double)", sortedKeys(sa)))
 	checkDrawCellWidth(c, p, dc, "C18-R3")
 	checkResolvedStyle(c, p, dc, "C18-R3")
 	checkCleanMarkCallers(c, p, "C18-R3")
